@@ -118,12 +118,29 @@ fn resolve_foreign_keys(
     foreign_keys_paths: BTreeSet<(Key, KeyPath)>,
 ) -> Result<()> {
     for (locale, value_path) in foreign_keys_paths {
-        let value = values
-            .get_value_at(&locale, &value_path)
+        let value = get_value_at_path(values, &locale, &value_path)
             .unwrap_at("resolve_foreign_keys_1");
         value.resolve_foreign_key(values, &locale, default_locale, &value_path)?;
     }
     Ok(())
+}
+
+/// The paths are recorded while parsing, before the plurals are merged:
+/// a foreign key inside `key_one` is now inside the plural at `key`.
+fn get_value_at_path<'a>(
+    values: &'a LocalesOrNamespaces,
+    locale: &Key,
+    value_path: &KeyPath,
+) -> Option<&'a parsed_value::ParsedValue> {
+    if let Some(value) = values.get_value_at(locale, value_path) {
+        return Some(value);
+    }
+    let mut plural_path = value_path.clone();
+    let form_key = plural_path.pop_key()?;
+    let (base_key, _) = form_key.name.rsplit_once('_')?;
+    let base_key = base_key.strip_suffix("_ordinal").unwrap_or(base_key);
+    plural_path.push_key(Key::new(base_key)?);
+    values.get_value_at(locale, &plural_path)
 }
 
 fn check_locales(
